@@ -12,7 +12,7 @@ C16 line protocol (strings travel as hex of UTF-8, `-` = empty string).
         msg = <str() of the exception> | !       (`!` = str() raised)
         class = <module|!>:<qualname>            (`!` = `__module__` is not a str)
         priors = - | <class>:<msg>;...           (the earlier captures of the session, exception part only)
-        entry = path,lineno,func,fid,cache,disk,loader   (what the interpreter hands over, see Model `TbEntry`)
+        entry = path,lineno,func,fid,cache,disk,loader,lasti   (what the interpreter hands over, see Model `TbEntry`)
           cache = a | z:<line> | p:<line> | s:<size>:<mtime>:<line>      disk = n | y:<size>:<mtime>:<line>
           loader = n | y:<line>
       -> `B=<ExceptionInfo.get_formatted> T=<TracebackInfo.from_traceback(tb, limit).get_formatted>
@@ -108,10 +108,10 @@ def parseLoader (w : String) : Option (Option Str) :=
 
 def parseEntryTok (w : String) : Option TbEntry :=
   match splitOnChar w ',' with
-  | [a, b, c, d, e, f, g] =>
-    match unhx a, b.toNat?, unhx c, d.toNat?, parseCache e, parseDisk f, parseLoader g with
-    | some p, some n, some fn, some fid, some ca, some di, some lo => some ⟨p, n, fn, fid, ⟨ca, di, lo⟩⟩
-    | _, _, _, _, _, _, _ => none
+  | [a, b, c, d, e, f, g, i] =>
+    match unhx a, b.toNat?, unhx c, d.toNat?, parseCache e, parseDisk f, parseLoader g, i.toNat? with
+    | some p, some n, some fn, some fid, some ca, some di, some lo, some li => some ⟨p, n, fn, fid, ⟨ca, di, lo⟩, li⟩
+    | _, _, _, _, _, _, _, _ => none
   | _ => none
 
 def showDictFrame (f : Str × Nat × Str × Str) : String :=
